@@ -10,4 +10,5 @@ INVARIANT NodeInOwningBucket
 INVARIANT Capacity
 INVARIANT OwnPathShape
 INVARIANT GeneratedIdInBucket
+INVARIANT FirstDiffAgree
 PROPERTY SplitOnlyOwnPath
